@@ -94,7 +94,8 @@ pub fn vx_de_node_entry(value: &Vec<u8>) -> Result<NodeEntry, Error> { unimpleme
 #[verifier::external_body]
 pub fn vx_de_state_entry(value: &Vec<u8>) -> (r: Result<NodeStateEntry, Error>) ensures r.is_ok() ==> r->Ok_0 == de_state_entry(value@) { unimplemented!() }
 #[verifier::external_body]
-pub fn vx_node_id_of_key(prefix: &VxStr, key: &VxStr) -> PublicKey { unimplemented!() }
+pub fn vx_node_id_of_key(prefix: &VxStr, key: &VxStr) -> (r: PublicKey) ensures r == node_id_of_key(*key) { unimplemented!() }
+pub uninterp spec fn node_id_of_key(key: VxStr) -> PublicKey;
 #[verifier::external_body]
 pub fn vx_parse_network(entry: &NodeEntry) -> Result<Network, Error> { unimplemented!() }
 #[verifier::external_body]
@@ -103,7 +104,8 @@ pub uninterp spec fn stored_state_bytes(p: VxKvvPersister, node_id: PublicKey) -
 impl VxKvvPersister {
     // get_prefix(prefix).map(KVV::into_inner).filter(non-empty values): the node entries, key and value
     #[verifier::external_body]
-    pub fn vx_node_kvvs(&self, prefix: &VxStr) -> Result<Vec<(VxStr, Vec<u8>)>, Error> { unimplemented!() }
+    pub fn vx_node_kvvs(&self, prefix: &VxStr) -> (r: Result<Vec<(VxStr, Vec<u8>)>, Error>) ensures r.is_ok() ==> r->Ok_0@ == self.stored_node_entries() { unimplemented!() }
+    pub uninterp spec fn stored_node_entries(&self) -> Seq<(VxStr, Vec<u8>)>;        // the non-empty node entry records, in key order
     // self.get(make_key(NODE_STATE_PREFIX, node_id))?.ok_or(NotFound)?.1 : the stored node-state value
     #[verifier::external_body]
     pub fn vx_get_state_value(&self, node_id: &PublicKey) -> (r: Result<Vec<u8>, Error>) ensures r.is_ok() ==> r->Ok_0@ == stored_state_bytes(*self, *node_id) { unimplemented!() }
@@ -113,7 +115,10 @@ impl VxKvvPersister {
 //@fn vls-persist/src/kvv.rs :: impl<S: KVVStore, F: ValueFormat> Persist for KVVPersister<S, F> :: get_nodes props=C12,C11,C15
 //@sigsub /CoreNodeEntry/ => VxCoreNodeEntry
     ensures
-        // every restored node state carries, in each control, the state that was stored under that control's name, and the
+        // every stored node is restored, under the id its key carries ...
+        r.is_ok() ==> r->Ok_0@.len() == self.stored_node_entries().len()
+            && forall|i: int| 0 <= i < r->Ok_0@.len() ==> (#[trigger] r->Ok_0@[i]).0 == node_id_of_key(self.stored_node_entries()[i].0),   //[C11.store.every-stored-node-restored]
+        // ... and every restored node state carries, in each control, the state that was stored under that control's name, and the
         // stored id high-water mark
         r.is_ok() ==> forall|i: int| 0 <= i < r->Ok_0@.len() ==> ({
             let e = de_state_entry(stored_state_bytes(*self, (#[trigger] r->Ok_0@[i]).0));
@@ -122,6 +127,8 @@ impl VxKvvPersister {
             && st.dbid_high_water_mark == e.dbid_high_water_mark                                                              //[C15.store.hwm-restored]
         }),
 //@sub /let mut res = Vec::new\(\);/ => let mut res: Vec<(PublicKey, VxCoreNodeEntry)> = Vec::new();
+//@proof after /let \(key, value\) = vx_kv;/
+            let ghost vx_key = key;
 //@sub /let prefix = NODE_ENTRY_PREFIX\.to_string\(\) \+ SEPARATOR;/ => let prefix = vx_node_entry_prefix();
 //@sub /(?s)let kvvs = self\s*\.get_prefix\(&prefix\)\?\s*\.map\(KVV::into_inner\)\s*\.filter\(\|\(_k, \(_r, value\)\)\| !value\.is_empty\(\)\);/ => let kvvs = self.vx_node_kvvs(&prefix)?;
 //@sub /for \(key, \(_r, value\)\) in kvvs \{/ => for vx_kv in kvvs { let (key, value) = vx_kv;
@@ -137,6 +144,8 @@ impl VxKvvPersister {
 //@sub /let node_entry = CoreNodeEntry \{/ => let node_entry = VxCoreNodeEntry {
 //@loop 1 iter=it
         invariant
+            kvvs@ == self.stored_node_entries(), res@.len() == it.index@,
+            forall|i: int| 0 <= i < res@.len() ==> (#[trigger] res@[i]).0 == node_id_of_key(kvvs@[i].0),
             forall|i: int| 0 <= i < res@.len() ==> ({
                 let e = de_state_entry(stored_state_bytes(*self, (#[trigger] res@[i]).0));
                 let st = res@[i].1.state;
